@@ -152,7 +152,7 @@ func Rotate(s string, shift int) string {
 
 	offset := -(shiftMod)
 	sb := strings.Builder{}
-	sb.Grow(sLen)
+	sb.Grow(len(s))
 	_, _ = sb.WriteString(SubStart(s, offset))
 	_, _ = sb.WriteString(Sub(s, 0, offset))
 	return sb.String()
@@ -237,7 +237,7 @@ func Reverse(s string) (string, error) {
 	dstIndex := 0
 	for srcIndex > 0 {
 		r, n := utf8.DecodeLastRune(src[:srcIndex])
-		if r == utf8.RuneError {
+		if r == utf8.RuneError && n <= 1 {
 			return hack.BytesToString(dst), ErrDecodeRune
 		}
 		utf8.EncodeRune(dst[dstIndex:], r)
